@@ -542,3 +542,69 @@ def permute_lists(r, rng, child_perm=None):
     rng.shuffle(links)
     n["linked_params"] = links
     return n
+
+
+# ------------------------------------------------------------------ single faults (C17)
+
+def _nodes(r, path=()):
+    yield r, path
+    for c in r["children"]:
+        yield from _nodes(c, path + (c["name"],))
+
+
+def inject_fault(rng, r):
+    """Returns (faulted copy, description) or None if no fault of the drawn kind fits this hierarchy."""
+    import copy
+
+    r = copy.deepcopy(r)
+    kind = rng.choice(["drop-connection", "duplicate-target", "duplicate-source", "cycle", "rep-two-children", "rep-no-child", "rep-own-resources"])
+    nodes = [n for n, _ in _nodes(r)]
+    if kind == "drop-connection":
+        cands = [n for n in nodes if n["connections"]]
+        if not cands:
+            return None
+        n = rng.choice(cands)
+        n["connections"].pop(rng.randrange(len(n["connections"])))
+    elif kind in ("duplicate-target", "duplicate-source"):
+        cands = [n for n in nodes if len(n["connections"]) >= 2]
+        if not cands:
+            return None
+        n = rng.choice(cands)
+        a, b = rng.sample(n["connections"], 2)
+        n["connections"].append([a[0], b[1]])   # a's source now has two wires, b's target has two wires
+    elif kind == "cycle":
+        # swap the sources of two wires so that a wire runs from a later child back into an earlier one
+        best = None
+        for n in nodes:
+            inner = [c for c in n["connections"] if "." in c[0] and "." in c[1] and c[0].split(".")[0] != c[1].split(".")[0]]
+            for c in inner:
+                up, down = c[0].split(".")[0], c[1].split(".")[0]
+                # a wire into `up` and a wire out of `down`
+                into_up = [d for d in n["connections"] if d[1].split(".")[0] == up and "." in d[1]]
+                out_down = [d for d in n["connections"] if d[0].split(".")[0] == down and "." in d[0]]
+                if into_up and out_down:
+                    best = (n, into_up[0], out_down[0])
+        if best is None:
+            return None
+        n, w_in, w_out = best
+        w_in[0], w_out[0] = w_out[0], w_in[0]
+    elif kind == "rep-two-children":
+        cands = [n for n in nodes if n.get("repetition")]
+        if not cands:
+            return None
+        n = rng.choice(cands)
+        n["children"].append({"name": "extra", "type": None, "input_params": [], "local_variables": [], "linked_params": [],
+                              "ports": [], "resources": [], "connections": [], "repetition": None, "children": []})
+    elif kind == "rep-no-child":
+        cands = [n for n in nodes if n.get("repetition") and not n["ports"]]
+        if not cands:
+            return None
+        n = rng.choice(cands)
+        n["children"], n["connections"], n["linked_params"] = [], [], []
+    else:
+        cands = [n for n in nodes if n.get("repetition")]
+        if not cands:
+            return None
+        n = rng.choice(cands)
+        n["resources"].append({"name": "own_cost", "type": "additive", "value": E.num(1)})
+    return r, kind
